@@ -35,6 +35,9 @@ func runC10(c *eng.Ctx, tier string) {
 	c10Init(c, init)
 	// R-C10-8: a valid cache entry is used as it is
 	checkPrepubRemovals(c, "R-C10-8")
+	// R-C10-9: "a value for every declared secret ... from a valid cache entry":
+	// the validity gate of the loaded cache (C13's rule)
+	include(c, "R-C10-9", c13Validity)
 	// R-C10-7
 	for _, f := range []*ssa.Function{ns, init, p.Method(setecPkg, "StoreConfig", "secretNames"), p.Method(setecPkg, "Store", "loadCache"), p.Method(setecPkg, "Store", "isActiveSetValid")} {
 		if f == nil {
@@ -274,7 +277,7 @@ func c10Init(c *eng.Ctx, init *ssa.Function) {
 		if !ok {
 			return
 		}
-		if isStoreClientInvoke(&call.Call) {
+		if isFetchCall(p, call) {
 			fetches = append(fetches, call)
 		}
 		if cal := eng.Callee(&call.Call); cal != nil {
@@ -337,7 +340,7 @@ func c10Init(c *eng.Ctx, init *ssa.Function) {
 		}
 		hit, path := eng.Search(init, fetch, eng.AssumeErr(ferr, false), isCtxErrTest, func(x ssa.Instruction) bool {
 			if call, ok := x.(*ssa.Call); ok {
-				if isStoreClientInvoke(&call.Call) {
+				if isFetchCall(p, call) {
 					return true
 				}
 				for _, w := range waits {
@@ -370,7 +373,7 @@ func c10Init(c *eng.Ctx, init *ssa.Function) {
 					if r, isR := y.(*ssa.Return); isR {
 						return nonNilAt(eng.RetVals(r)[0], eng.FactsAt(r)) != eng.Yes
 					}
-					if call, ok := y.(*ssa.Call); ok && isStoreClientInvoke(&call.Call) {
+					if call, ok := y.(*ssa.Call); ok && isFetchCall(p, call) {
 						return true
 					}
 					return false
@@ -400,7 +403,7 @@ func c10Init(c *eng.Ctx, init *ssa.Function) {
 				missing = true
 			}
 		}
-		c.Check(missing && eng.Origin(fetch.Call.Args[1]) == loop.Key, "R-C10-5", init, fetch.Pos(), eng.CallStr(&fetch.Call)+" [only missing]", "a name is fetched only while its entry is nil, under its own name (a secret already obtained is never re-fetched)", "holding: "+eng.FactsString(fetch))
+		c.Check(missing && eng.Origin(fetchName(fetch)) == loop.Key, "R-C10-5", init, fetch.Pos(), eng.CallStr(&fetch.Call)+" [only missing]", "a name is fetched only while its entry is nil, under its own name (a secret already obtained is never re-fetched)", "holding: "+eng.FactsString(fetch))
 		// success installs a fresh entry under the same name
 		var install *ssa.MapUpdate
 		for _, m := range eng.MapOps(init) {
@@ -574,4 +577,35 @@ func c10Init(c *eng.Ctx, init *ssa.Function) {
 func isIntType(t types.Type) bool {
 	b, ok := t.Underlying().(*types.Basic)
 	return ok && b.Info()&types.IsInteger != 0
+}
+
+
+// isFetchCall: a request to the service, made directly or by a module helper
+// whose body (transitively) does.
+func isFetchCall(p *eng.Prog, call *ssa.Call) bool {
+	if isStoreClientInvoke(&call.Call) {
+		return true
+	}
+	cal := eng.Callee(&call.Call)
+	if cal == nil || cal.Blocks == nil || eng.FuncPkg(cal) != p.TypesPkg(setecPkg) {
+		return false
+	}
+	if _, isW := isWaiter(eng.Unwrap(cal)); isW {
+		return false
+	}
+	hits := p.CallGraph().FindReachable(cal, nil, func(in ssa.Instruction) bool {
+		ci, ok := in.(ssa.CallInstruction)
+		return ok && isStoreClientInvoke(ci.Common())
+	})
+	return len(hits) > 0
+}
+
+// fetchName: the string argument of a fetch (the secret name).
+func fetchName(call *ssa.Call) ssa.Value {
+	for _, a := range call.Call.Args {
+		if isStringType(a.Type()) {
+			return a
+		}
+	}
+	return nil
 }
